@@ -41,6 +41,9 @@ type C15Case struct {
 	// the plan must afterwards be served as if nothing had happened.
 	StormN      int           `json:"storm_clients,omitempty"`
 	StormFaults []world.Fault `json:"storm_faults,omitempty"`
+	// Forwarded: the provider sits behind proxies and derives its issuer from Forwarded headers; every request carries two
+	// header lines - the outer proxy's (the same for everybody, no host) and the inner one's with the public host
+	Forwarded bool `json:"forwarded,omitempty"`
 }
 
 var c15Ops = []string{"sso", "flow-post", "flow-post", "flow-redirect", "logout", "attrquery", "metadata", "certificate"}
@@ -56,6 +59,7 @@ func genC15Case(t *rapid.T) C15Case {
 		c.Ops = append(c.Ops, ops)
 		c.Yields = append(c.Yields, rapid.IntRange(0, 3).Draw(t, "yield"))
 	}
+	c.Forwarded = rapid.IntRange(0, 2).Draw(t, "forwarded") == 0
 	if rapid.Bool().Draw(t, "storm") {
 		c.StormN = rapid.SampledFrom([]int{4, 17, 24, 40}).Draw(t, "stormclients")
 		c.StormFaults = []world.Fault{rapid.SampledFrom(c15StormFaults).Draw(t, "stormfault")}
@@ -81,7 +85,8 @@ var c15StormFaults = []world.Fault{
 func c15Tok(i int) string { return fmt.Sprintf("zzsess%dsesszz", i) }
 
 func c15Spec(n int) world.Spec {
-	spec := world.Spec{IdP: world.IdPConfig{IssuerMode: "host", IssuerPath: "/saml", SignatureAlgorithm: world.AlgRSASHA256, MetadataSigAlg: world.AlgRSASHA256}}
+	// ErrorURL is configured as a path (emitted verbatim: the same for every tenant)
+	spec := world.Spec{IdP: world.IdPConfig{IssuerMode: "host", IssuerPath: "/saml", SignatureAlgorithm: world.AlgRSASHA256, MetadataSigAlg: world.AlgRSASHA256, ErrorURL: "/ui/error"}}
 	for i := 0; i < n; i++ {
 		tk := c15Tok(i)
 		sp := world.SPSpec{
@@ -146,6 +151,8 @@ type c15Collect struct {
 	sameHost bool
 	// sameSP: all clients are users' browsers of one service provider and one user account (session 0's)
 	sameSP bool
+	// forwarded: requests reach the provider through proxies (see C15Case.Forwarded)
+	forwarded bool
 	// sharedReqIDs: the AuthnRequests of all sessions carry the same message IDs (IDs are chosen by each provider on its own)
 	sharedReqIDs bool
 }
@@ -181,6 +188,10 @@ func c15Do(w *world.World, cc *c15Collect, i int, host string, yield int) func(o
 func c15DoOpt(w *world.World, cc *c15Collect, i int, host string, yield int, mk func() obs.Opt) func(op string, hr obs.HTTPReq) (obs.Reply, time.Time, time.Time) {
 	return func(op string, hr obs.HTTPReq) (obs.Reply, time.Time, time.Time) {
 		hr.Host = host
+		if cc.forwarded {
+			hr.Host = "internal-proxy.local"
+			hr.Headers = append(hr.Headers, [2]string{"Forwarded", "for=192.0.2.7;proto=https"}, [2]string{"Forwarded", "for=10.0.0.7;host=" + host})
+		}
 		for k := 0; k < yield; k++ {
 			runtime.Gosched()
 		}
@@ -549,6 +560,9 @@ func c15Await(wg *sync.WaitGroup, cc *c15Collect, what string) *ev.Violation {
 
 func c15Run(c C15Case) ([]*ev.Violation, *c15Collect) {
 	spec := c15Spec(c.N + c.StormN)
+	if c.Forwarded {
+		spec.IdP.IssuerMode = "forwarded"
+	}
 	for j := 0; j < c.StormN; j++ {
 		i := c.N + j
 		tk := c15Tok(i)
@@ -557,7 +571,7 @@ func c15Run(c C15Case) ([]*ev.Violation, *c15Collect) {
 			AuthRequestID: "_stormreq" + tk, UserID: spec.Users[i].UserID, Done: true})
 	}
 	w := mustBuild(spec)
-	cc := &c15Collect{ids: map[string]string{}, byOp: map[string]int{}}
+	cc := &c15Collect{ids: map[string]string{}, byOp: map[string]int{}, forwarded: c.Forwarded}
 	old := runtime.GOMAXPROCS(c.Procs)
 	defer runtime.GOMAXPROCS(old)
 	if c.StormN > 0 {
